@@ -12,11 +12,13 @@
 EXTENDS Unparse, Json
 
 BinOps == {"+", "-", "*", "/", "<", "<=", ">", ">=", "==", "!=", "~=", "&&", "||"}
-Fixed  == { IntL(2), Str(<<"b", "2">>), Flt(3, 1), Bool(TRUE), Str(<<"a">>) }
+Fixed  == { IntL(2), Str(<<"b", "2">>), Flt(3, 1), Bool(TRUE), Str(<<"a">>), Str(<<"a", "b", "c">>) }
 \* the values the loop variable takes (patterns among them)
 Lists  == { <<IntL(1), IntL(2), IntL(3)>>,
             <<Str(<<"^", "a">>), Str(<<"^", "b">>), Str(<<"2">>), Str(<<"a">>)>>,
             <<Str(<<"b", "2">>), Str(<<"a">>), Str(<<"b", "2">>)>>,
+            \* patterns whose only metacharacter is the dot (it matches any one character)
+            <<Str(<<"b", ".">>), Str(<<".", "2">>), Str(<<"a", ".", "c">>), Str(<<".">>), Str(<<"b", ".", ".">>)>>,
             <<Flt(1, 1), Flt(3, 1), Flt(5, 1)>>,
             <<Bool(TRUE), Bool(FALSE), Bool(TRUE)>>,
             <<Str(<<"b">>), IntL(2), Str(<<"b">>)>> }
